@@ -49,7 +49,8 @@ def mm_status_iff_conflict(path):
         return None
     conflicted = path.env.get('conflicted')
     if conflicted is None:
-        return False, 'no variable `conflicted` on a path that merged'
+        # the obligation is stated over the local that holds the conflicted decisions; under another name it makes no statement
+        raise _oos('no local `conflicted` on a path that merged (renamed?)')
     ret = path.value
     from pyvc.effects import PathExec
     zero = (ret.t == 0) if ret.kind == 'int' else (as_py(ret) == as_py(const(0)))
@@ -63,6 +64,8 @@ def mm_conflicted_is_from_merge(path):
         return None
     m = _eff(path, 'merge')[0]
     dec = path.env.get('decisions')
+    if dec is None:
+        raise _oos('no local `decisions` on a path that merged (renamed?)')
     import z3 as _z
     unpack1 = _z.Function('unpack.1', dec.t.sort(), dec.t.sort()) if dec is not None and dec.kind == 'py' else None
     ok = dec is not None and dec.kind == 'py' and dec.t.eq(unpack1(as_py(m.result)))
@@ -484,7 +487,9 @@ def gc_own_keys_only(path):
             if not reads:
                 return False, '%s is unset without reading its current value first' % vals[1]
             tool = path.env.get('tool')
-            if tool is None or not _mentions(as_py(tool), as_py(reads[-1].result)):
+            if tool is None:
+                raise _oos('no local `tool` holding the value read (renamed?)')
+            if not _mentions(as_py(tool), as_py(reads[-1].result)):
                 return False, 'the value compared is not the one read from %s' % vals[1]
             ok, _, v = path.entails(as_py(tool) == as_py(const('nbdime')))
             if not ok:
@@ -615,7 +620,9 @@ def st_destination(path):
         if t.arg(0).decl().name() != 'attr.curdir':
             return False, 'destination directory is not self.curdir'
         fn = path.env.get('fn')
-        if fn is None or not t.arg(1).eq(as_py(fn)) or 'params' not in str(as_py(fn)) or 'outputfilename' not in str([k for k in _consts_in(as_py(fn))]):
+        if fn is None:
+            raise _oos('no local `fn` holding the output file name (renamed?)')
+        if not t.arg(1).eq(as_py(fn)) or 'params' not in str(as_py(fn)) or 'outputfilename' not in str([k for k in _consts_in(as_py(fn))]):
             return False, 'destination file name is not params.get("outputfilename")'
     return True, 'destination fixed by server parameters'
 
@@ -700,7 +707,11 @@ def df_consistent(path):
     if len(fins) != 1:
         return False, '%d responses' % len(fins)
     data = fins[0].args[-1]
-    if not (isinstance(data.origin, tuple) and data.origin[0] == 'dict' and set(data.origin[1]) == {'base', 'diff'}):
+    if not (isinstance(data.origin, tuple) and data.origin[0] == 'dict'):
+        raise _oos('the response body is not written as a dict display')       # built in steps, by a helper, ...: no statement here
+    if set(data.origin[1]) != {'base', 'diff'}:
+        if [e for e in path.effects if e.name == 'setitem']:
+            raise _oos('the response body is completed by item assignments')
         return False, 'response is not {base, diff}'
     reads = _eff(path, 'read_nb')
     by = {r.args[-1].t: r for r in reads if r.args[-1].kind == 'const'}
@@ -728,7 +739,11 @@ def mg_library(path):
     if not fins:
         raise _oos('no self.finish(...) on a returning path of the merge handler')
     data = fins[0].args[-1]
-    if not (isinstance(data.origin, tuple) and data.origin[0] == 'dict' and set(data.origin[1]) == {'base', 'merge_decisions'}):
+    if not (isinstance(data.origin, tuple) and data.origin[0] == 'dict'):
+        raise _oos('the response body is not written as a dict display')
+    if set(data.origin[1]) != {'base', 'merge_decisions'}:
+        if [e for e in path.effects if e.name == 'setitem']:
+            raise _oos('the response body is completed by item assignments')
         return False, 'response is not {base, merge_decisions}'
     ok = as_py(data.origin[1]['merge_decisions']).eq(as_py(d[0].result)) and as_py(data.origin[1]['base']).eq(as_py(reads['base'].result))
     return ok, 'response carries the library decisions'
@@ -998,8 +1013,14 @@ def bc_cwd_first(path):
     load = _eff(path, 'load_files')
     if path.outcome != 'return':
         return None
-    if len(ins) != 1 or not load:
-        return False, 'cwd not inserted exactly once / files not loaded'
+    if not load:
+        return False, 'the configuration files are not loaded on a returning path'
+    if not ins:
+        # the search path is not built by inserting into the jupyter path here (concatenation, a helper, ...): the obligation is stated
+        # over the insert; without it this function makes no statement and the executable model of the rule decides
+        raise _oos('the config search path is not built with <list>.insert(...)')
+    if len(ins) != 1:
+        return False, 'the search path is modified %d times' % len(ins)
     i = ins[0]
     ok = i.args[1].kind == 'const' and i.args[1].t == 0 and 'getcwd' in str(as_py(i.args[2])) and path.effects.index(i) < path.effects.index(load[0])
     jp = _eff(path, 'jupyter_path')
